@@ -400,3 +400,54 @@ def binFracOp (j : Json) : Json :=
   Json.mkObj [("value", Json.str (let r := binFrac bs; if r.den == 1 then toString r.num else s!"{r.num}/{r.den}"))]
 
 end Tangelo.Driver
+
+namespace Tangelo.Driver
+open Tangelo.Codec Lean Tangelo.Rdm
+
+def matOfJson (j : Json) : Nat → Nat → Int := fun a b =>
+  match j with
+  | .arr rows => match rows[a]? with
+    | some (.arr r) => match r[b]? with
+      | some v => (getInt? v).getD 0
+      | none => 0
+    | _ => 0
+  | _ => 0
+
+def matToJson (n : Nat) (f : Nat → Nat → Int) : Json :=
+  Json.arr ((List.range n).map (fun p => Json.arr ((List.range n).map (fun q => intJ (f p q))).toArray)).toArray
+
+/-- {"op":"pad1","n_mos":n,"n_occ":k,"active":[..],"one":[[..]]} → {"out":[[..]]} -/
+def pad1Op (j : Json) : Json :=
+  match getNat? (j.getObjValD "n_mos"), getNat? (j.getObjValD "n_occ"), getNatList? (j.getObjValD "active") with
+  | some n, some k, some act => Json.mkObj [("out", matToJson n (pad1 k act (matOfJson (j.getObjValD "one"))))]
+  | _, _, _ => jErr "pad1"
+
+/-- {"op":"spinsum1","t":[[..]]} → {"out":[[..]]} -/
+def spinSum1Op (j : Json) : Json :=
+  match j.getObjValD "t" with
+  | .arr rows => Json.mkObj [("out", matToJson (rows.size / 2) (spinSumLoop rows.size (matOfJson (j.getObjValD "t"))))]
+  | _ => jErr "spinsum1"
+
+end Tangelo.Driver
+
+namespace Tangelo.Driver
+open Tangelo.Codec Lean Tangelo.Frozen
+
+/-- {"op":"partition","occ":[2,2,1,0],"spec":null|k|[..]} → {"out":["ok",ao,fo,av,fv] | ["err"]} -/
+def partitionOp (j : Json) : Json :=
+  match getNatList? (j.getObjValD "occ") with
+  | some occ =>
+    let spec? : Option Spec := match j.getObjValD "spec" with
+      | .null => some .none
+      | .arr a => (getIntList? (.arr a)).map Spec.list
+      | v => (getInt? v).map Spec.int
+    match spec? with
+    | some spec =>
+      let nl := fun (l : List Nat) => Json.arr (l.map natJ).toArray
+      match partition occ spec with
+      | some p => Json.mkObj [("out", Json.arr #[Json.str "ok", nl p.activeOcc, nl p.frozenOcc, nl p.activeVirt, nl p.frozenVirt])]
+      | none => Json.mkObj [("out", Json.arr #[Json.str "err"])]
+    | none => jErr "partition: spec"
+  | none => jErr "partition"
+
+end Tangelo.Driver
